@@ -18,10 +18,20 @@ def Identity.nsSafe (i : Identity) : Bool := i.td != "ns".toList && i.ns != "ns"
 /-- `namespaces` / `source.namespace` value without wildcard and without '/'. -/
 def nsValueExact (v : Str) : Bool := !v.contains '*' && !v.contains '/'
 
+/-- `namespaces` / `source.namespace` values whose translation is proved exact: no '/', and one of
+    the documented forms - exact, `prefix*` (incl. `*`), `*suffix` with a suffix other than `a` and
+    `sa` (for those two the generated regex over-matches: finding 1). -/
+def nsValueOK (v : Str) : Bool :=
+  !v.contains '/' &&
+  (!v.contains '*' ||
+   (hasSuffix star v && !v.dropLast.contains '*') ||
+   (hasPrefix star v && !(v.drop 1).contains '*' && v.drop 1 != [] && v.drop 1 != "a".toList &&
+     v.drop 1 != "sa".toList))
+
 /-- Side conditions on a principal-side value under which its translation is proved exact. -/
 def prinValueOK (g : Gen) (v : Str) : Bool :=
   match g with
-  | .srcNamespace => nsValueExact v
+  | .srcNamespace => nsValueOK v
   | .srcServiceAccount pns => !pns.contains '/'
   | .srcTrustDomain => !v.contains '/'
   | _ => true
